@@ -44,17 +44,18 @@ Section Bytes.
       unfold bw_flush. destruct (flush_buf wa (bw_inner b) (bw_buf b)) as [[[r1 d1] rem] s1] eqn:E1.
       destruct (flush_buf_sound _ _ _ _ _ _ E1) as [HB [Hok1 Herr1]].
       destruct r1 as [|e1].
-      + rewrite (Hok1 eq_refl) in *. rewrite app_nil_r in HB. cbn [bw_buf bw_inner].
+      + rewrite (Hok1 eq_refl) in *. rewrite app_nil_r in HB. subst d1. cbn [bw_buf bw_inner].
         destruct (cap <=? length buf)%nat eqn:Ebig.
-        * destruct (wa s1 buf) as [[r2 d2] s2] eqn:E2. intro H; inversion H; subst. cbn [bw_buf].
+        * destruct (wa s1 buf) as [[r2 d2] s2] eqn:E2.
           destruct (wa_ok _ _ _ _ _ E2) as [rest [Hb [Hok2 Herr2]]].
+          intro H; inversion H; subst r d b'. cbn [bw_buf].
           split.
           { intros ->. rewrite (Hok2 eq_refl), app_nil_r in Hb. subst buf.
-            rewrite app_nil_r, HB. split; [reflexivity | cbn; lia]. }
+            rewrite app_nil_r. split; [reflexivity | cbn [length]; lia]. }
           { intros e ->. exists rest. split; [exact (Herr2 e eq_refl)|].
-            rewrite HB, Hb, <- app_assoc. reflexivity. }
-        * apply Nat.leb_gt in Ebig. intro H; inversion H; subst. cbn [bw_buf]. split; [|discriminate].
-          intros _. rewrite HB. split; [reflexivity | cbn; lia].
+            rewrite Hb at 1. rewrite <- app_assoc. reflexivity. }
+        * apply Nat.leb_gt in Ebig. intro H; inversion H; subst r d b'. cbn [bw_buf app]. split; [|discriminate].
+          intros _. split; [reflexivity | lia].
       + intro H; inversion H; subst. cbn [bw_buf]. split; [discriminate|].
         intros e _. exists buf. split; [exact Hbuf|]. rewrite HB, <- app_assoc. reflexivity.
     - apply Nat.ltb_ge in Eflush.
@@ -83,14 +84,15 @@ Section Bytes.
   Proof.
     induction calls as [|x calls IH]; intros c r d c' Hinv H.
     - cbn in H. inversion H; subst. cbn [concat]. rewrite app_nil_r. split; [|discriminate].
-      intros _. split; [reflexivity|]. split; [exact Hinv | lia].
+      intros _. split; [reflexivity|]. split; [exact Hinv | cbn [length]; lia].
     - cbn [run_cwb] in H. unfold cwb_write_all in H.
       destruct (bw_write_all wa cap (cwb_inner c) x) as [[r1 d1] b1] eqn:E1.
       destruct (bw_write_all_sound _ _ _ _ _ Hinv E1) as [Hok1 Herr1].
       destruct r1 as [|e1].
       + destruct (Hok1 eq_refl) as [H1 Hinv1].
         destruct (run_cwb wa cap calls _) as [[r2 d2] c2] eqn:E2. inversion H; subst.
-        destruct (IH _ _ _ _ Hinv1 E2) as [Hok2 Herr2]. cbn [cwb_inner cwb_count] in *. cbn [concat].
+        destruct (IH {| cwb_inner := b1; cwb_count := cwb_count c + N.of_nat (length x) |} _ _ _ Hinv1 E2) as [Hok2 Herr2].
+        cbn [cwb_inner cwb_count] in *. cbn [concat].
         split.
         * intros Hr. destruct (Hok2 Hr) as [H2 [Hinv2 Hcnt]]. split; [|split; [exact Hinv2|]].
           -- rewrite <- app_assoc, H2, app_assoc, H1, <- app_assoc. reflexivity.
@@ -219,7 +221,7 @@ Qed.
 Lemma first_hard_app_r u1 u2 e : no_hard u1 -> first_hard u2 e -> first_hard (u1 ++ u2) e.
 Proof.
   intros H1 [sf [h [rest [-> [Hs Hh]]]]]. exists (u1 ++ sf), h, rest. rewrite <- app_assoc.
-  split; [reflexivity|]. split; [apply Forall_app; auto | exact Hh].
+  split; [reflexivity|]. split; [apply Forall_app; split; assumption | exact Hh].
 Qed.
 
 Lemma tr_refl s : tr s s WOk [].
@@ -228,7 +230,7 @@ Proof. split; [reflexivity|]. split; [constructor | discriminate]. Qed.
 Lemma tr_seq s s1 s2 r u1 u2 : tr s s1 WOk u1 -> tr s1 s2 r u2 -> tr s s2 r (u1 ++ u2).
 Proof.
   intros [H1 [Hok1 _]] [H2 [Hok2 Herr2]]. split; [rewrite H1, H2, app_assoc; reflexivity|]. split.
-  - intro Hr. apply Forall_app. auto.
+  - intro Hr. apply Forall_app. split; [exact (Hok1 eq_refl) | exact (Hok2 Hr)].
   - intros e He. apply first_hard_app_r; auto.
 Qed.
 
@@ -242,9 +244,20 @@ Qed.
 Lemma tr_write_all s buf r d s' : write_all s buf = (r, d, s') -> exists used, tr s s' r used.
 Proof.
   intro H. destruct (write_all_faithful _ _ _ _ _ H) as [used [Hs [Hok Herr]]]. exists used. split; [|split].
-  - destruct Hs as [Hs | [Hs1 Hs2]]; [exact Hs | subst; rewrite app_nil_r; reflexivity].
+  - destruct Hs as [Hs | [Hs1 Hs2]]; [exact Hs | subst; symmetry; apply app_nil_r].
   - exact Hok.
   - intros e He. destruct (Herr e He) as [sf [h [-> [Hsf Hh]]]]. exists sf, h, []. auto.
+Qed.
+
+Lemma write_all_hard_head h tail e x :
+  hard_kind h = Some e -> x <> [] -> write_all (h :: tail) x = (WErr e, [], tail).
+Proof.
+  intros Hh Hx. rewrite write_all_cons by exact Hx. destruct h as [k| | |e0]; cbn in Hh.
+  - destruct (k =? 0) eqn:Ek; [|discriminate]. apply N.eqb_eq in Ek. subst k. inversion Hh; subst.
+    unfold take_n. rewrite N.min_0_l. reflexivity.
+  - discriminate.
+  - inversion Hh; subst. reflexivity.
+  - inversion Hh; subst. reflexivity.
 Qed.
 
 Section Answers.
@@ -279,7 +292,7 @@ Section Answers.
       - intro H; inversion H; subst. exists u1. exact H1. }
     destruct (spare cap b <? length buf)%nat.
     - unfold bw_flush. destruct (flush_buf write_all (bw_inner b) (bw_buf b)) as [[[r1 d1] rem] s1] eqn:E1.
-      destruct (tr_flush_buf _ _ _ _ _ _ E1) as [u1 H1]. exact (G r1 d1 _ u1 H1).
+      destruct (tr_flush_buf _ _ _ _ _ _ E1) as [u1 H1]. exact (G r1 d1 {| bw_buf := rem; bw_inner := s1 |} u1 H1).
     - exact (G WOk [] b [] (tr_refl _)).
   Qed.
 
@@ -378,12 +391,7 @@ Section Answers.
   Proof.
     intros Hh Hb. unfold bw_write_all.
     assert (W : forall x, x <> [] -> exists s1, write_all (h :: tail) x = (WErr e, [], s1)).
-    { intros x Hx. rewrite write_all_cons by exact Hx. destruct h as [k| | |e0]; cbn in Hh.
-      - destruct (k =? 0) eqn:Ek; [|discriminate]. apply N.eqb_eq in Ek. subst k. inversion Hh; subst.
-        unfold take_n. rewrite N.min_0_l. cbn. eauto.
-      - discriminate.
-      - inversion Hh; subst. eauto.
-      - inversion Hh; subst. eauto. }
+    { intros x Hx. exists tail. apply write_all_hard_head; assumption. }
     destruct (length buf <? spare cap b)%nat.
     { intro H; inversion H; subst. cbn [bw_inner bw_buf]. split; [reflexivity|]. left. auto. }
     destruct (spare cap b <? length buf)%nat eqn:Eflush.
@@ -417,7 +425,7 @@ Section Answers.
       destruct (bw_write_all write_all cap (cwb_inner c) x) as [[r1 d1] b1] eqn:E1.
       destruct (bw_write_all_full _ _ _ _ _ _ _ _ Hh Hc E1) as [-> [[-> [Hi HB]] | ->]].
       + destruct (run_cwb write_all cap calls _) as [[r2 d2] c2] eqn:E2. inversion H; subst.
-        destruct (IH _ _ _ _ Hh Hi E2) as [-> [[-> [Hi2 HB2]] | ->]]; (split; [reflexivity|]).
+        destruct (IH {| cwb_inner := b1; cwb_count := cwb_count c + N.of_nat (length x) |} _ _ _ Hh Hi E2) as [-> [[-> [Hi2 HB2]] | ->]]; (split; [reflexivity|]).
         * left. cbn [cwb_inner] in *. rewrite HB2, HB. cbn [concat]. rewrite app_assoc. auto.
         * right. reflexivity.
       + inversion H; subst. split; [reflexivity | right; reflexivity].
@@ -429,26 +437,11 @@ Section Answers.
   Proof.
     intros Hh Hne. unfold save_path.
     destruct (run_cwb write_all cap calls _) as [[r1 d1] c1] eqn:E1.
-    destruct (run_cwb_full h tail e _ _ _ _ _ Hh eq_refl E1) as [-> [[-> [Hi HB]] | ->]].
+    destruct (run_cwb_full h tail e calls {| cwb_inner := {| bw_buf := []; bw_inner := h :: tail |}; cwb_count := 0 |} _ _ _ Hh eq_refl E1) as [-> [[-> [Hi HB]] | ->]].
     - cbn [cwb_inner bw_buf app] in HB. cbn [finish_path]. unfold bw_flush, flush_buf. rewrite Hi, HB.
       destruct (concat calls) as [|y B] eqn:EC; [congruence|].
-      rewrite write_all_cons by discriminate.
-      assert (W : match h with
-                  | Accept k => match take_n k (y :: B) with
-                                | O => (WErr EWriteZero, @nil byte, tail)
-                                | S m => let '(r, d, s'') := write_all tail (skipn (S m) (y :: B)) in (r, firstn (S m) (y :: B) ++ d, s'')
-                                end
-                  | Interrupted => write_all tail (y :: B)
-                  | Zero => (WErr EWriteZero, [], tail)
-                  | Fail e0 => (WErr e0, [], tail)
-                  end = (WErr e, [], tail)).
-      { destruct h as [k| | |e0]; cbn in Hh.
-        - destruct (k =? 0) eqn:Ek; [|discriminate]. apply N.eqb_eq in Ek. subst k. inversion Hh; subst.
-          unfold take_n. rewrite N.min_0_l. reflexivity.
-        - discriminate.
-        - inversion Hh; subst. reflexivity.
-        - inversion Hh; subst. reflexivity. }
-      rewrite W. destruct (bw_drop write_all _) as [d3 s3]. reflexivity.
+      rewrite (write_all_hard_head _ _ _ _ Hh) by discriminate.
+      destruct (bw_drop write_all _) as [d3 s3]. reflexivity.
     - cbn [finish_path]. destruct (bw_drop write_all _) as [d3 s3]. reflexivity.
   Qed.
 End Answers.
@@ -467,14 +460,14 @@ Proof. vm_compute. reflexivity. Qed.
 
 (* the failure hits the final flush only: save_internal has long returned Ok *)
 Lemma ex_path_final_flush_fails :
-  save_path write_all 8192 ex_path_calls None [Fail EStorageFull; Fail EStorageFull; Fail EStorageFull]
+  save_path write_all DEFAULT_BUF_SIZE ex_path_calls None [Fail EStorageFull; Fail EStorageFull; Fail EStorageFull]
   = (WErr EStorageFull, [], [Fail EStorageFull]).
 Proof. vm_compute. reflexivity. Qed.
 
 (* the seeded defect (BufWriter dropped): Ok although not one byte reached the file -- excluded for
    save_path by save_path_ok_iff_complete *)
 Lemma dropped_bufwriter_breaks :
-  save_path_dropped write_all 8192 ex_path_calls [Fail EStorageFull; Fail EStorageFull; Fail EStorageFull]
+  save_path_dropped write_all DEFAULT_BUF_SIZE ex_path_calls [Fail EStorageFull; Fail EStorageFull; Fail EStorageFull]
   = (WOk, [], [Fail EStorageFull; Fail EStorageFull]) /\
   concat ex_path_calls <> [].
 Proof. split; [vm_compute; reflexivity | discriminate]. Qed.
@@ -485,5 +478,5 @@ Lemma ex_path_positional :
   = (WErr EStorageFull, bs "%PDF-1.5" ++ [x0a] ++ bs "1 0", [Fail EStorageFull]).
 Proof. vm_compute. reflexivity. Qed.
 
-Lemma ex_path_create : save_path write_all 8192 ex_path_calls (Some EPermissionDenied) [] = (WErr EPermissionDenied, [], []).
+Lemma ex_path_create : save_path write_all DEFAULT_BUF_SIZE ex_path_calls (Some EPermissionDenied) [] = (WErr EPermissionDenied, [], []).
 Proof. reflexivity. Qed.
